@@ -1178,6 +1178,16 @@ func (c *Context) Pow(d, x, y *Decimal) (Condition, error) {
 		p = nd
 	}
 	p += 4 + 6
+	// Repeated squaring amplifies the rounding error of every step by about
+	// |y|, so each digit of y's integer part beyond those 6 needs a guard
+	// digit of its own.
+	// A base of exactly one (1.000 ** 1E+20000) needs none: every product is
+	// exact, and the extra digits would only be filled with zeros.
+	var ax Decimal
+	ax.Abs(x)
+	if yd := integ.NumDigits() + int64(integ.Exponent); yd > 6 && ax.Cmp(decimalOne) != 0 {
+		p += uint32(yd - 6)
+	}
 
 	nc := BaseContext.WithPrecision(p)
 
